@@ -32,70 +32,21 @@ FIXED_UNSIGNED = {'guint8': 8, 'guint16': 16, 'guint32': 32, 'guint64': 64, 'gui
 PLATFORM_UNSIGNED = {'gulong': 8 * ctypes.sizeof(ctypes.c_ulong), 'gsize': 8 * ctypes.sizeof(ctypes.c_size_t),
                      'guintptr': 8 * ctypes.sizeof(ctypes.c_void_p)}
 
-# Genuine limitations of the unchanged code.  A failing constant is put in a class only when the
-# GIR shows exactly the signature of that class (right name, c:type and <type>, value = the integer
-# as written, i.e. not wrapped at all); anything else is reported under the exact input.
-#
-# CLASS_FINDINGS: the merged keys (one per defect = one per proposed repair).
-#   const-unwrapped:unsigned-long-long   declared type resolves to `unsigned long long` (64 bits everywhere)
-#   const-unwrapped:platform-width       ... to gulong / gsize / guintptr (width depends on the platform)
-#   const-unwrapped:alias-chain          ... to ANY unsigned type through two or more typedefs
-# LEGACY: the per-type keys recorded first (const-unwrapped:<type>, const-unwrapped:alias-chain:<type>).
-# A failure is reported under the class key when known_findings.json lists it, else under the legacy
-# key (so both key sets work); a constant that needs two repairs (a chain ending in gulong) is
-# reported under whichever of its causes is still known.
-CLASS_FINDINGS = {
-    'const-unwrapped:unsigned-long-long':
-        "constants of type `unsigned long long` are emitted unwrapped: '#define FOO_X ((unsigned long long) -1)' "
-        'gives value="-1" (no branch of the wrap chain in _create_const tests TYPE_LONG_ULONG)',
-    'const-unwrapped:platform-width':
-        "constants of the platform-width unsigned types gulong, gsize, guintptr (and their C spellings unsigned "
-        "long, size_t, uintptr_t, ulong) are emitted unwrapped: '#define FOO_X ((gsize) -1)' gives value=\"-1\" "
-        '(no branch of the wrap chain in _create_const tests TYPE_ULONG / TYPE_SIZE / TYPE_UINTPTR)',
-    'const-unwrapped:alias-chain':
-        'constants whose type reaches an unsigned type through two or more typedefs are emitted unwrapped: '
-        "typedef guint8 FooA; typedef FooA FooB; '#define FOO_X ((FooB) -1)' gives value=\"-1\" (resolve_aliases "
-        'stops at the first alias because alias targets are still unresolved while parsing)',
-}
-LEGACY_PLATFORM = ['gulong', 'gsize', 'guintptr', 'unsigned long long']
-LEGACY_CHAIN = ['guint8', 'guint16', 'guint32', 'guint64', 'guint', 'gushort', 'gunichar']
+# The one genuine limitation of the unchanged code that is recorded (known_findings.json):
+#   const-unwrapped:platform-width   a constant whose declared type resolves -- directly or through any
+#                                    number of typedefs -- to gulong / gsize / guintptr is emitted as
+#                                    written instead of wrapped modulo the width of the type
+# A failing constant is put in this class only when its end type is one of the three AND the GIR shows
+# exactly the signature of the defect (right name, c:type and <type>; value = the integer as written,
+# i.e. not wrapped at all); anything else is reported under the exact input.  Typedef chains and
+# `unsigned long long` were repaired in /repo (ecb96bb, 6ff1643) and are judged with no suppression.
+PLATFORM_KEY = 'const-unwrapped:platform-width'
 PENDING_FINDINGS = [
-    ('const-unwrapped:' + f,
-     "constants of platform-width unsigned type %s are emitted unwrapped: '#define FOO_X ((%s) -1)' gives "
-     'value="-1"' % (f, f)) for f in sorted(LEGACY_PLATFORM)
-] + [
-    ('const-unwrapped:alias-chain:' + f,
-     'constants whose type reaches %s through two or more typedefs are emitted unwrapped: typedef %s FooA; '
-     "typedef FooA FooB; '#define FOO_X ((FooB) -1)' gives value=\"-1\" (resolve_aliases stops at the first "
-     'alias because alias targets are still unresolved while parsing)' % (f, f)) for f in sorted(LEGACY_CHAIN)
+    (PLATFORM_KEY,
+     "constants of the platform-width unsigned types gulong, gsize, guintptr (and their C spellings unsigned "
+     "long, size_t, uintptr_t, ulong) are emitted unwrapped: '#define FOO_X ((gsize) -1)' gives value=\"-1\" "
+     '(no branch of the wrap chain in _create_const tests TYPE_ULONG / TYPE_SIZE / TYPE_UINTPTR)'),
 ]
-
-
-def unwrapped_causes(fund, depth):
-    """the defect classes that can explain an unwrapped constant whose declared type reaches the unsigned
-    fundamental type `fund` through `depth` typedefs: [(class key, legacy key or None)], in reporting order"""
-    out = []
-    if fund == 'unsigned long long':
-        out.append(('const-unwrapped:unsigned-long-long', 'const-unwrapped:unsigned long long'))
-    elif fund in PLATFORM_UNSIGNED:
-        out.append(('const-unwrapped:platform-width', 'const-unwrapped:' + fund))
-    if depth >= 2:
-        out.append(('const-unwrapped:alias-chain',
-                    'const-unwrapped:alias-chain:' + fund if fund in LEGACY_CHAIN else None))
-    return out
-
-
-def unwrapped_key(ctx, fund, depth):
-    """the key to report an unwrapped constant under: the first known key among its causes (class key
-    before legacy key); None when no cause applies; when none is known, the class keys of all causes joined
-    by '+' (a new violation: e.g. a chain ending in gulong once only one of the two defects is repaired and
-    the legacy per-type keys, which have no entry for that combination, are still in use)"""
-    causes = unwrapped_causes(fund, depth)
-    for ck, lk in causes:
-        for k in (ck, lk):
-            if k is not None and ctx.is_known(k) is not None:
-                return k
-    return '+'.join(ck for ck, _ in causes) if causes else None
 
 
 CONTAINERS = {'GList', 'GSList', 'GByteArray', 'GArray', 'GPtrArray', 'GHashTable', 'GStrv'}
@@ -694,8 +645,9 @@ def oracle_const(ctx, cnt, case, pos, d, impl):
                     signature = got.get('value') == str(v) and got.get('ctype') == name and \
                         got.get('name') == stripped and \
                         all(got.get(k) == val for k, val in want.items() if k != 'value')
-                    key = unwrapped_key(ctx, fund, depth) if signature else None
-                    if key is None:
+                    if signature and fund in PLATFORM_UNSIGNED:
+                        key = PLATFORM_KEY
+                    else:
                         key = 'const:' + json.dumps([d, case['decls'][:pos]], sort_keys=True)
                     ctx.report_failure(key, 'constant %s of type %s (= %s through %d typedefs) has value=%r; the '
                                        'property requires %r (0 <= value < 2**%d, congruent to %d)'
@@ -997,7 +949,6 @@ def run(ctx):
         'corpus_cases': len(corpus),
         'pipeline_cases': len(cases),
         'pending_findings': [k for k, _ in PENDING_FINDINGS],
-        'class_findings': sorted(CLASS_FINDINGS),
         'exhaustive': False,
         'exhaustive_small_scope': exhaustive_note,
     })
